@@ -374,4 +374,87 @@ package serf
 //@   loop 1 invariant frame [C15]: elemsUnchangedExcept(lst)
 //@ end
 
+// ---------------------------------------------------------------- query reply relays (C35)
+
+//@ func kRandomMembers(k int, members []Member, filterFunc func(Member) bool) (ret []Member)
+//@   requires k_nonneg: k >= 0
+//@   ensures at_most_k [C35]: len(ret) <= k
+//@   ensures from_members [C35]: forall(func(j int) bool { return 0 <= j && j < len(ret) ==>
+//@       exists(func(i int) bool { return 0 <= i && i < len(members) && same(ret[j], old(members[i])) }) })
+//@   ensures none_filtered [C35]: filterFunc != nil ==> forall(func(j int) bool { return 0 <= j && j < len(ret) ==> !filterFunc(ret[j]) })
+//@   ensures distinct_names [C35]: forall2(func(i, j int) bool { return 0 <= i && i < j && j < len(ret) ==> ret[i].Name != ret[j].Name })
+//@   ensures input_untouched [C35]: forall(func(i int) bool { return 0 <= i && i < len(members) ==> same(members[i], old(members[i])) })
+//@   loop 1 vars i int, kMembers []Member
+//@   loop 1 invariant size [C35]: 0 <= len(kMembers) && len(kMembers) <= k && len(kMembers) <= cap(kMembers) && !nilSlice(kMembers) && arrayAllocated(kMembers) && disjoint(kMembers, members)
+//@   loop 1 invariant from_members [C35]: forall(func(j int) bool { return 0 <= j && j < len(kMembers) ==>
+//@       exists(func(i0 int) bool { return 0 <= i0 && i0 < len(members) && same(kMembers[j], old(members[i0])) }) })
+//@   loop 1 invariant none_filtered [C35]: filterFunc != nil ==> forall(func(j int) bool { return 0 <= j && j < len(kMembers) ==> !filterFunc(kMembers[j]) })
+//@   loop 1 invariant distinct_names [C35]: forall2(func(a, b int) bool { return 0 <= a && a < b && b < len(kMembers) ==> kMembers[a].Name != kMembers[b].Name })
+//@   loop 1 invariant input_untouched [C35]: forall(func(i0 int) bool { return 0 <= i0 && i0 < len(members) ==> same(members[i0], old(members[i0])) })
+//@   loop 2 vars j int, member Member, kMembers []Member
+//@   loop 2 invariant scanned [C35]: 0 <= j && forall(func(j0 int) bool { return 0 <= j0 && j0 < j ==> member.Name != kMembers[j0].Name })
+//@ end
+
+//@ import "net"
+
+// packets handed to memberlist for direct delivery: ghost log "packets" (destination name) / "packetlen"
+//@ func (m *memberlist.Memberlist) SendToAddress(a memberlist.Address, msg []byte) (err error)
+//@   trusted
+//@   assigns LogN_packets:Int, Log_packets:(Array Int Str), Log_packetlen:(Array Int Int)
+//@   ensures logged: logN("packets") == old(logN("packets"))+1 && logAt[string]("packets", old(logN("packets"))) == a.Name &&
+//@       logAt[int]("packetlen", old(logN("packets"))) == len(msg)
+//@   ensures earlier_kept: forall(func(i int) bool { return i < old(logN("packets")) ==>
+//@       logAt[string]("packets", i) == old(logAt[string]("packets", i)) && logAt[int]("packetlen", i) == old(logAt[int]("packetlen", i)) })
+//@ end
+
+// Members: a snapshot (copies) of the members in the map; proved separately
+//@ func (s *Serf) Members() (ret []Member)
+//@   trusted
+//@   ensures count: len(ret) == len(s.members)
+//@   ensures snapshot: forall(func(j int) bool { return 0 <= j && j < len(ret) ==>
+//@       exists(func(k string) bool { return hasMember(s, k) && same(ret[j], s.members[k].Member) }) })
+//@ end
+
+//@ func encodeRelayMessage(t messageType, addr net.UDPAddr, nodeName string, msg any) (raw []byte, err error)
+//@   trusted
+//@ end
+
+//@ pure func packetTo(i int) string { return logAt[string]("packets", i) }
+
+//@ func (s *Serf) relayResponse(relayFactor uint8, addr net.UDPAddr, nodeName string, resp *messageQueryResponse) (err error)
+//@   requires wf: wfMembers(s) && hasMember(s, s.config.NodeName)
+//@   oldlet p0 := logN("packets")
+//@   let sent := logN("packets") - p0
+//@   ensures no_relay_when_zero [C35]: relayFactor == 0 ==> sent == 0 && err == nil
+//@   ensures too_few_members [C35]: len(s.members) < int(relayFactor)+1 ==> sent == 0 && err == nil
+//@   ensures at_most_k [C35]: 0 <= sent && sent <= int(relayFactor)
+//@   ensures distinct_targets [C35]: forall2(func(a, b int) bool { return p0 <= a && a < b && b < p0+sent ==> packetTo(a) != packetTo(b) })
+//@   ensures never_self [C35]: forall(func(a int) bool { return p0 <= a && a < p0+sent ==> packetTo(a) != s.config.NodeName })
+//@   ensures eligible_targets [C35]: forall(func(a int) bool { return p0 <= a && a < p0+sent ==>
+//@       exists(func(k string) bool { return hasMember(s, k) && s.members[k].Name == packetTo(a) &&
+//@           s.members[k].Status == StatusAlive && s.members[k].ProtocolMax >= 5 }) })
+//@   ensures within_limit [C33]: forall(func(a int) bool { return p0 <= a && a < p0+sent ==> logAt[int]("packetlen", a) <= s.config.QueryResponseSizeLimit })
+//@   ensures earlier_kept [C35]: forall(func(i int) bool { return i < p0 ==> packetTo(i) == old(packetTo(i)) && logAt[int]("packetlen", i) == old(logAt[int]("packetlen", i)) })
+//@   loop 1 vars rangeindex int, relayMembers []Member, raw []byte
+//@   loop 1 invariant progress [C35]: -1 <= rangeindex && rangeindex < len(relayMembers) && logN("packets") == p0 + rangeindex + 1
+//@   loop 1 invariant targets [C35]: forall(func(a int) bool { return p0 <= a && a <= p0+rangeindex ==> packetTo(a) == relayMembers[a-p0].Name })
+//@   loop 1 invariant sizes [C33]: forall(func(a int) bool { return p0 <= a && a <= p0+rangeindex ==> logAt[int]("packetlen", a) == len(raw) })
+//@   loop 1 invariant earlier_kept [C35]: forall(func(i int) bool { return i < p0 ==> packetTo(i) == old(packetTo(i)) && logAt[int]("packetlen", i) == old(logAt[int]("packetlen", i)) })
+//@ end
+
+//@ func (q *Query) respondWithMessageAndResponse(raw []byte, resp messageQueryResponse) (err error)
+//@   requires wf: q != nil && q.serf != nil && wfMembers(q.serf) && hasMember(q.serf, q.serf.config.NodeName)
+//@   oldlet p0 := logN("packets")
+//@   let sent := logN("packets") - p0
+//@   # C33: nothing larger than the response limit leaves the node
+//@   ensures within_limit [C33]: forall(func(a int) bool { return p0 <= a && a < p0+sent ==> logAt[int]("packetlen", a) <= q.serf.config.QueryResponseSizeLimit })
+//@   ensures oversize_not_sent [C33]: len(raw) > q.serf.config.QueryResponseSizeLimit ==> sent == 0 && err != nil
+//@   # C35: the origin first, then at most relayFactor relays
+//@   ensures origin_first [C35]: sent > 0 ==> packetTo(p0) == old(q.sourceNode) && logAt[int]("packetlen", p0) == len(raw)
+//@   ensures at_most_k_relays [C35]: 0 <= sent && sent <= 1 + int(old(q.relayFactor))
+//@   ensures relays_never_self [C35]: forall(func(a int) bool { return p0+1 <= a && a < p0+sent ==> packetTo(a) != q.serf.config.NodeName })
+//@   ensures relays_distinct [C35]: forall2(func(a, b int) bool { return p0+1 <= a && a < b && b < p0+sent ==> packetTo(a) != packetTo(b) })
+//@   ensures success_means_sent [C35]: err == nil ==> sent >= 1
+//@ end
+
 // END-OF-CONTRACTS
